@@ -133,6 +133,22 @@ impl X {
     pub fn leaf(ns: Ns, name: &str, token: &str) -> Self {
         Self::new(ns, name).token(token)
     }
+    /// local names of all elements of the tree (document order, no duplicates)
+    pub fn element_names(&self) -> Vec<String> {
+        fn walk(x: &X, out: &mut Vec<String>) {
+            if !out.contains(&x.name) {
+                out.push(x.name.clone());
+            }
+            for k in &x.kids {
+                if let XNode::E(e) = k {
+                    walk(e, out);
+                }
+            }
+        }
+        let mut out = Vec::new();
+        walk(self, &mut out);
+        out
+    }
     fn collect_ns(&self, out: &mut Vec<Ns>) {
         if !out.contains(&self.ns) {
             out.push(self.ns.clone());
@@ -195,6 +211,10 @@ pub struct Style {
     pub collapse_containers: bool,
     /// whitespace between the root end tag and the delimiter
     pub before_marker: Ws,
+    /// when set, the element-level rewrites (empty forms, token whitespace, comments) are applied
+    /// only to elements with this local name (used to attribute a failure to one element)
+    #[serde(default)]
+    pub scope: Option<String>,
 }
 
 impl Style {
@@ -212,6 +232,7 @@ impl Style {
             expand_empty: false,
             collapse_containers: false,
             before_marker: Ws::NewlineIndent(0),
+            scope: None,
         }
     }
     pub fn compact() -> Self {
@@ -325,6 +346,7 @@ pub fn style_strategy() -> impl Strategy<Value = Style> {
                     expand_empty,
                     collapse_containers,
                     before_marker,
+                    scope: None,
                 }
             },
         )
@@ -342,8 +364,30 @@ impl<'a> Renderer<'a> {
             Ns::Base => self.style.base_prefix.clone(),
             Ns::Xnm => self.style.xnm_prefix.clone(),
             Ns::None => None,
-            other => Some(other.default_prefix().to_string()),
+            other => {
+                // never collide with a prefix the style chose for another namespace
+                let mut p = other.default_prefix().to_string();
+                while Some(&p) == self.style.base_prefix.as_ref()
+                    || Some(&p) == self.style.xnm_prefix.as_ref()
+                {
+                    p.push('_');
+                }
+                Some(p)
+            }
         }
+    }
+
+    /// prefix for an attribute in namespace `ns` (attributes cannot use the default namespace)
+    fn attr_prefix(&self, ns: &Ns) -> String {
+        self.prefix_for(ns).unwrap_or_else(|| {
+            let mut p = ns.default_prefix().to_string();
+            while Some(&p) == self.style.base_prefix.as_ref()
+                || Some(&p) == self.style.xnm_prefix.as_ref()
+            {
+                p.push('_');
+            }
+            p
+        })
     }
 
     fn comment(&mut self) {
@@ -383,9 +427,7 @@ impl<'a> Renderer<'a> {
                 let name = if a.ns == Ns::None {
                     a.name.clone()
                 } else {
-                    let p = self
-                        .prefix_for(&a.ns)
-                        .unwrap_or_else(|| a.ns.default_prefix().to_string());
+                    let p = self.attr_prefix(&a.ns);
                     format!("{p}:{}", a.name)
                 };
                 (name, a.value.clone())
@@ -394,7 +436,7 @@ impl<'a> Renderer<'a> {
         // an attribute in a namespace whose style says "default namespace" still needs a prefix
         for a in &x.attrs {
             if a.ns != Ns::None && self.prefix_for(&a.ns).is_none() {
-                let p = a.ns.default_prefix().to_string();
+                let p = self.attr_prefix(&a.ns);
                 let decl = (format!("xmlns:{p}"), a.ns.uri().to_string());
                 if !attrs.contains(&decl) {
                     attrs.push(decl);
@@ -411,11 +453,12 @@ impl<'a> Renderer<'a> {
             self.out
                 .push_str(&format!(" {k}={q}{}{q}", escape_attr(v, q)));
         }
+        let scoped = self.style.scope.as_ref().map_or(true, |n| *n == x.name);
         if x.kids.is_empty() {
             let expand = if x.container {
-                !self.style.collapse_containers
+                !(self.style.collapse_containers && scoped)
             } else {
-                self.style.expand_empty
+                self.style.expand_empty && scoped
             };
             if expand {
                 self.out.push_str(&format!("></{qname}>"));
@@ -431,7 +474,7 @@ impl<'a> Renderer<'a> {
                 XNode::E(e) => {
                     if element_only {
                         self.out.push_str(&self.style.inter.render(depth + 1));
-                        if self.style.comments >= 1 {
+                        if self.style.comments >= 1 && scoped {
                             self.comment();
                             self.out.push_str(&self.style.inter.render(depth + 1));
                         }
@@ -439,7 +482,11 @@ impl<'a> Renderer<'a> {
                     self.elem(e, depth + 1, &new_default, None);
                 }
                 XNode::T(t) => {
-                    let ws = self.style.token_ws.render(depth + 1);
+                    let ws = if scoped {
+                        self.style.token_ws.render(depth + 1)
+                    } else {
+                        String::new()
+                    };
                     self.out.push_str(&ws);
                     self.out.push_str(&escape_text(t));
                     self.out.push_str(&ws);
@@ -449,7 +496,7 @@ impl<'a> Renderer<'a> {
             }
         }
         if element_only {
-            if self.style.comments >= 1 {
+            if self.style.comments >= 1 && scoped {
                 self.out.push_str(&self.style.inter.render(depth + 1));
                 self.comment();
             }
